@@ -33,6 +33,45 @@ CI_CFG = {
 }
 CI_ROOTS = ['_ZN14child_iteratorC1E9Dwarf_Die', '_ZN14child_iteratorppEv', '_ZN14child_iteratordeEv', '_ZNK14child_iteratorneERKS_']
 FN = 4
+VOFF = r'(const )?(std::vector<(unsigned long|Dwarf_Off)(, std::allocator<(unsigned long|Dwarf_Off)>)?>|root_cache::off_vect)'
+VOFF_IT = r'(const )?(__gnu_cxx::__normal_iterator<(const )?(unsigned long|Dwarf_Off) \*, ' + VOFF + r'>|' + VOFF + r'::(const_)?iterator)'
+RCMAP = r'(const )?(std::map<Dwarf \*, ' + VOFF + r'(, .*)?>|root_cache::cache_t)'
+RCENT = r'(const )?std::pair<Dwarf \*(const)?, ' + VOFF + r'>'
+RCENT2 = r'(const )?std::pair<Dwarf \*const, ' + VOFF + r'>'
+RCIT = r'(const )?std::(_Rb_tree_(const_)?iterator<' + RCENT2 + r'>|map<.*>::(const_)?iterator)'
+RCINS = r'(const )?std::pair<std::_Rb_tree_iterator<' + RCENT2 + r'>, bool>'
+# cu_iterator's member functions are defined in dwit.cc: here they are externs bound, by name, to the functions lowered from that unit
+RC_CFG = {
+    'names': {'root_cache::is_root': 'root_cache_is_root'},
+    'types': {r'std::iterator<.*>': 'empty_base', VOFF: 'vec_off', VOFF_IT: 'unsigned long *', RCMAP: 'rcmap', RCENT: 'rcentry', RCENT2: 'rcentry', RCIT: 'rcentry *', RCINS: 'rcins',
+              r'(struct )?Dwarf': 'void', r'(struct )?Dwarf_CU': 'void', r'(struct )?Dwarf_Abbrev': 'void', r'Dwarf_Off': 'unsigned long'},
+    'types_are_records': {r'std::iterator<.*>': True, VOFF: True, RCMAP: True, RCENT: True, RCENT2: True, RCINS: True},
+    'record_ctypes': ['empty_base', 'vec_off', 'rcmap', 'rcentry', 'rcins'],
+    'record_default': {'vec_off': 'vec_off_new()'},
+    'record_copy': {'cu_iterator': 'cu_iterator_copy'},
+    'types_prelude': '#include "dw_model.h"\n#include "rc_model.h"\n',
+    'bodies_prelude': '#define C05_ROOT 1\n#include "dw_model2.h"\n#include "rc_model2.h"\n',
+    'functor_types': [r'\(lambda at .*\)'],
+    'extern': {'__assert_fail': 'verif_assert_fail_libc', 'abort': 'verif_abort',
+               r'dwarf_dieoffset': 'm_dwarf_dieoffset', r'dwarf_cu_getdwarf': 'm_dwarf_cu_getdwarf', r'throw_libdw.*': 'm_throw_libdw',
+               r'cu_iterator::ctor\|void \(Dwarf \*\)': 'cu_iterator_ctor_dw', r'cu_iterator::end': 'cu_iterator_end',
+               r'cu_iterator::operator!=': 'cu_iterator_ne', r'cu_iterator::operator\+\+\|cu_iterator \(\)': 'cu_iterator_preinc',
+               r'cu_iterator::operator\*': 'cu_iterator_deref',
+               RCMAP + r'::find': 'rcmap_find', RCMAP + r'::end': 'rcmap_end', RCMAP + r'::insert': 'rcmap_insert',
+               r'std::make_pair': 'make_rcentry', r'std::move': 'VERIF_MOVE',
+               r'std::operator==\|.*_Rb_tree_.*': {'c': 'IT_EQ', 'by_value': True}, r'std::_Rb_tree_(const_)?iterator<.*>::operator==': {'c': 'IT_EQ', 'by_value': True},
+               r'std::_Rb_tree_(const_)?iterator<.*>::operator->': {'c': 'PTR_ID', 'by_value': True},
+               VOFF + r'::push_back': 'vec_off_push_back', VOFF + r'::begin': 'VOFF_BEGIN', VOFF + r'::end': 'VOFF_END',
+               r'std::lower_bound': 'vec_off_lower_bound',
+               r'__gnu_cxx::operator!=.*': {'c': 'IT_NE', 'by_value': True}, r'__gnu_cxx::operator==.*': {'c': 'IT_EQ', 'by_value': True},
+               r'__gnu_cxx::__normal_iterator<.*>::operator\*': {'c': 'PTR_ID', 'by_value': True}},
+}
+RC_ROOTS = ['root_cache::is_root']
+CUI_CFG = dict(C02.IT_CFG)
+CUI_CFG['names'] = dict(C02.IT_CFG['names'], **{'_ZN11cu_iteratorC1EP5Dwarf': 'cu_iterator_ctor_dw', '_ZN11cu_iteratordeEv': 'cu_iterator_deref',
+                                                 '_ZNK11cu_iteratorneERKS_': 'cu_iterator_ne'})
+CUI_CFG['bodies_prelude'] = '#define C05_CUI 1\n#include "dw_model2.h"\n'
+CUI_ROOTS = ['_ZN11cu_iteratorC1EP5Dwarf', '_ZN11cu_iteratorppEv', '_ZN11cu_iteratordeEv', '_ZNK11cu_iteratorneERKS_', 'cu_iterator::end']
 
 
 def jobs(tier):
@@ -42,6 +81,9 @@ def jobs(tier):
     A = ['--object-bits', '13']
     return [Job('bounded_child_parent_n%d' % FN, src, 'hb_child_parent', includes=inc, defines=['NN=%d' % FN], kind='bounded', unwind=nf + 4, timeout=600,
                 mem_gb=32, cbmc_args=A, note='child_iterator and parent_cache::find on every forest shape of <= %d DIEs (%d shapes enumerated, offsets symbolic), every DIE' % (FN, nf)),
+            Job('bounded_is_root_n3', [os.path.join(HERE, 'root_harness.c'), os.path.join(OUT, 'rc_bodies.c'), os.path.join(OUT, 'cui_bodies.c')], 'hb_is_root',
+                includes=[os.path.join(OUT, 'f3')] + inc, defines=['NN=3'], kind='bounded', unwind=len(C02.forests(3)) + 6, timeout=900, mem_gb=32, cbmc_args=A,
+                note='root_cache::is_root (?root) with the real cu_iterator: every forest shape of <= 3 DIEs (fixed offsets), every ordered pair of DIEs on one cache'),
             Job('child_parent_control', src, 'hb_child_parent_control', includes=inc, defines=['NN=%d' % FN, 'VERIF_CONTROL'], kind='control', expect='fail',
                 unwind=nf + 4, timeout=600, mem_gb=32, cbmc_args=A)]
 
@@ -51,22 +93,28 @@ TRUSTED = ['tools/cxx2c.py lowering', 'props/c02/dw_model*.h: assumed contract o
 ASSUMPTIONS = [
     'libdw is replaced by the forest model of C02 (props/c02/dw_model*.h); the parent cache (std::map) and std::lower_bound are modelled (props/c02/pf_model.h)',
     'BOUNDED: every forest shape of <= 4 DIEs enumerated concretely, offsets symbolic',
-    'SLICE of C05: only "every DIE yielded by child of D has D as parent, and child yields exactly the DIEs whose parent is D, in section order" in RAW mode. Cooked mode (import chains), root, unit, entry, ?root, equality of DIEs reached twice are NOT covered',
+    'SLICE of C05: only "every DIE yielded by child of D has D as parent, and child yields exactly the DIEs whose parent is D, in section order" in RAW mode. and "?root holds exactly for unit DIEs" (root_cache::is_root). Cooked mode (import chains), root, unit, entry, equality of DIEs reached twice are NOT covered',
 ]
 EXPLANATION = 'Raw-mode child/parent agreement on the real child_iterator and parent_cache::find over a libdw model; see DESIGN.md section 4 C05.'
 
 
 def spec_files():
-    return [os.path.join(HERE, 'nav_harness.c'), os.path.join(HERE, 'ci_wrap.c')] + [os.path.join(C02DIR, f) for f in ('dw_model.h', 'dw_model2.h', 'pf_model.h')]
+    return [os.path.join(HERE, f) for f in ('nav_harness.c', 'ci_wrap.c', 'root_harness.c', 'rc_model.h', 'rc_model2.h')] + [os.path.join(C02DIR, f) for f in ('dw_model.h', 'dw_model2.h', 'pf_model.h')]
 
 
 def prepare(tier):
     ci = vlib.extract('ci', 'libzwerg/dwit.cc', CI_CFG, CI_ROOTS, OUT)
     pf = vlib.extract('pf', 'libzwerg/cache.cc', C02.PF_CFG, C02.PF_ROOTS, OUT)
+    rc = vlib.extract('rc', 'libzwerg/cache.cc', RC_CFG, RC_ROOTS, OUT)
+    cui = vlib.extract('cui', 'libzwerg/dwit.cc', CUI_CFG, CUI_ROOTS, OUT)
+    pf.report['functions'] += rc.report['functions'] + cui.report['functions']
     out = C02.OUT
     C02.OUT = OUT
     try:
         C02.write_forests(FN)
+        os.makedirs(os.path.join(OUT, 'f3'), exist_ok=True)
+        C02.OUT = os.path.join(OUT, 'f3')
+        C02.write_forests(3)
     finally:
         C02.OUT = out
     return {'unit': 'libzwerg/dwit.cc (child_iterator), libzwerg/cache.cc (parent_cache::find)', 'functions': ci.report['functions'] + pf.report['functions']}
